@@ -585,6 +585,9 @@ impl Engine for GcEngine {
             // sort with a key function that allocates
             run("setvar($74,array([int(#3),int(#1),int(#2)])),setglobal($67,call($7374642e736f727465645f62795f6b6579,[closure([$6b6579,$76616c],[return(callnative($6d6b7461626c65,[readvar($76616c)]))]),readvar($74)]))", ""),
             run("setvar($74,array([int(#3),int(#1),int(#2)])),setglobal($67,call($7374642e6d696e,[readvar($74)])),setglobal($68,get(readvar($74),int(#1)))", ""),
+            // the key function removes the rows of the iterated table (global alias) and allocates
+            run("setvar($74,array([str($6161616161616161),str($626262626262),str($63636363)])),setglobal($67706f70726f7773,readvar($74)),setglobal($67,call($7374642e6d696e5f62795f6b6579,[closure([$6b6579,$76616c],[pop(readvar($67706f70726f7773)),setvar($6a756e6b,str($676172626167652067617262616765)),return(readvar($76616c))]),readvar($74)]))", ""),
+            run("setvar($74,array([str($6161616161616161),str($626262626262),str($63636363)])),setglobal($67706f70726f7773,readvar($74)),setglobal($67,call($7374642e736f727465645f62795f6b6579,[closure([$6b6579,$76616c],[pop(readvar($67706f70726f7773)),setvar($6a756e6b,str($676172626167652067617262616765)),return(readvar($76616c))]),readvar($74)]))", ""),
             // a table used as key and mutated afterwards no longer finds its entry; the entry is still stored
             run("setglobal($6b,table),setprop(int(#1),readvar($6b),str($78)),setglobal($74,table),setprop(str($7468652076616c756520737472696e67),readvar($74),readvar($6b)),setprop(int(#2),readvar($6b),str($78)),setglobal($6a756e6b,str($67617262616765)),setprop(int(#1),readvar($6b),str($78)),setglobal($6a756e6b,str($67617262616765)),setglobal($67,getprop(readvar($74),readvar($6b)))", ""),
         ]
